@@ -132,7 +132,8 @@ theorem count_fields_coils (a : UInt16) (bs : List Bool) (hf : (ReqMeaning.write
       (rd16 qh ql).toNat = bs.length ∧ bc.toNat = (bs.length + 7) / 8 ∧ payload.length = (bs.length + 7) / 8 ∧
       payload = Spec.packBits bs := by
   obtain ⟨_, h255⟩ := hf
-  refine ⟨_, _, _, _, rfl, ?_, Req.u8_toNat_ofNat_of_le h255, ?_, rfl⟩
+  refine ⟨Spec.hi (UInt16.ofNat bs.length), Spec.lo (UInt16.ofNat bs.length),
+    UInt8.ofNat ((bs.length + 7) / 8), Spec.packBits bs, rfl, ?_, Req.u8_toNat_ofNat_of_le h255, ?_, rfl⟩
   · rw [Req.rd16_hi_lo, Req.u16_toNat_ofNat_of_lt (by omega)]
   · rw [packBits_length]; rfl
 
@@ -141,7 +142,8 @@ theorem count_fields_registers (a : UInt16) (ws : List UInt16) (hf : (ReqMeaning
       (rd16 qh ql).toNat = ws.length ∧ bc.toNat = 2 * ws.length ∧ payload.length = 2 * ws.length ∧
       payload = Spec.wordsBE ws := by
   obtain ⟨_, h255⟩ := hf
-  refine ⟨_, _, _, _, rfl, ?_, Req.u8_toNat_ofNat_of_le h255, ?_, rfl⟩
+  refine ⟨Spec.hi (UInt16.ofNat ws.length), Spec.lo (UInt16.ofNat ws.length),
+    UInt8.ofNat (2 * ws.length), Spec.wordsBE ws, rfl, ?_, Req.u8_toNat_ofNat_of_le h255, ?_, rfl⟩
   · rw [Req.rd16_hi_lo, Req.u16_toNat_ofNat_of_lt (by omega)]
   · rw [wordsBE_length]; omega
 
@@ -153,11 +155,17 @@ theorem count_fields_read_write (ra rq wa : UInt16) (ws : List UInt16)
       (rd16 qh ql).toNat = ws.length ∧ bc.toNat = 2 * ws.length ∧ payload.length = 2 * ws.length ∧
       payload = Spec.wordsBE ws := by
   obtain ⟨_, h255⟩ := hf
-  refine ⟨_, _, _, _, rfl, ?_, Req.u8_toNat_ofNat_of_le h255, ?_, rfl⟩
+  refine ⟨Spec.hi (UInt16.ofNat ws.length), Spec.lo (UInt16.ofNat ws.length),
+    UInt8.ofNat (2 * ws.length), Spec.wordsBE ws, rfl, ?_, Req.u8_toNat_ofNat_of_le h255, ?_, rfl⟩
   · rw [Req.rd16_hi_lo, Req.u16_toNat_ofNat_of_lt (by omega)]
   · rw [wordsBE_length]; omega
 
 /-! ### concrete instances, evaluated in the kernel -/
+
+/-- the hypotheses of the `count_fields_*` lemmas: nine coils, three words -/
+example : (ReqMeaning.writeMultipleCoils 7 [true, false, true, true, false, false, true, true, true]).fits ∧
+    (ReqMeaning.writeMultipleRegisters 7 [1, 2, 3]).fits ∧
+    (ReqMeaning.readWriteMultipleRegisters 7 8 9 [1, 2, 3]).fits := by decide +kernel
 
 /-- 128 words (byte count 256 would wrap to `00`): an error, in a buffer that could hold them -/
 example : ∃ d, Data.fromWords (List.replicate 128 0x1234) (List.replicate 256 0) = .ok d ∧
@@ -173,20 +181,42 @@ example : ∃ d, Data.fromWords (List.replicate 127 0x1234) (List.replicate 256 
     Spec.reqBytes (.writeMultipleRegisters 0 (List.replicate 127 0x1234)) ++ List.replicate 40 0,
     by decide +kernel, by decide +kernel⟩
 
-/-- 2048 coils (packed length 256 would wrap to `00`): an error, in a buffer that could hold them -/
+/-- 2048 coils (packed length 256 would wrap to `00`): an error, in a buffer that could hold them.
+    (What `from_bools` returns is taken from `C16.from_bools_spec`; evaluating the 2048-step packing loop
+    in the kernel takes over a minute.  The encoder's outcome is evaluated.) -/
 example : ∃ c, Coils.fromBools (List.replicate 2048 true) (List.replicate 256 0) = .ok c ∧
     (Request.writeMultipleCoils 0 c).encode (List.replicate 300 0) = .err .bufferSize :=
-  ⟨⟨List.replicate 256 0xFF, 2048⟩, by decide +kernel, by decide +kernel⟩
+  ⟨_, C16.from_bools_spec _ _ (by decide +kernel) (by decide +kernel), by decide +kernel⟩
 
-/-- 2041 coils, the smallest oversize coil payload -/
+/-- 2041 coils, the smallest oversize coil payload; 2040, the largest that fits: count byte `FF`,
+    quantity `07 F8` -/
 example : ∃ c, Coils.fromBools (List.replicate 2041 true) (List.replicate 256 0) = .ok c ∧
     (Request.writeMultipleCoils 0 c).encode (List.replicate 300 0) = .err .bufferSize :=
-  ⟨⟨List.replicate 255 0xFF ++ [0x01], 2041⟩, by decide +kernel, by decide +kernel⟩
+  ⟨_, C16.from_bools_spec _ _ (by decide +kernel) (by decide +kernel), by decide +kernel⟩
 
-/-- the hypotheses of `req_oversize_is_error` for those values -/
+example : ∃ c, Coils.fromBools (List.replicate 2040 true) (List.replicate 256 0) = .ok c ∧
+    ∃ out, (Request.writeMultipleCoils 0 c).encode (List.replicate 300 0) = .ok (261, out) ∧
+      out.take 6 = [0x0F, 0, 0, 0x07, 0xF8, 0xFF] := by
+  have h := C16.from_bools_spec (List.replicate 2040 true) (List.replicate 256 0) (by decide +kernel)
+    (by decide +kernel)
+  have hb : (Request.writeMultipleCoils 0 _).Built (.writeMultipleCoils 0 (List.replicate 2040 true)) :=
+    .writeMultipleCoils 0 _ _ _ h
+  have hlen : (reqBytes (.writeMultipleCoils 0 (List.replicate 2040 true))).length = 261 := by decide +kernel
+  refine ⟨_, h, reqBytes (.writeMultipleCoils 0 (List.replicate 2040 true)) ++ (List.replicate 300 0).drop 261, ?_, ?_⟩
+  · rw [hb.encode_fits (by decide +kernel), hlen, List.length_replicate, if_neg (by omega)]
+  · decide +kernel
+
+/-- the hypotheses of `req_oversize_is_error` for those values, and for 70000 words -/
 example : ¬ (ReqMeaning.writeMultipleCoils 0 (List.replicate 2048 true)).fits ∧
-    ¬ (ReqMeaning.writeMultipleRegisters 0 (List.replicate 128 0x1234)).fits ∧
-    ¬ (ReqMeaning.writeMultipleRegisters 0 (List.replicate 70000 0x1234)).fits := by
+    ¬ (ReqMeaning.writeMultipleRegisters 0 (List.replicate 128 0x1234)).fits := by
   decide +kernel
+
+example : ¬ (ReqMeaning.writeMultipleRegisters 0 (List.replicate 70000 0x1234)).fits :=
+  fun h => by have := h.2; rw [List.length_replicate] at this; omega
+
+/-- 70000 words (quantity would wrap to 4464, byte count to `C0`): an error for every buffer -/
+example (t buf : Bytes) (d : Data) (h : Data.fromWords (List.replicate 70000 0x1234) t = .ok d) :
+    (Request.writeMultipleRegisters 0 d).encode buf = .err .bufferSize :=
+  (write_multiple_registers_no_truncation 0 _ t d h buf).2.1 (by rw [List.length_replicate]; omega)
 
 end Modbus.C19Req
